@@ -332,9 +332,17 @@ def expand(sched, n):
 
 
 def client_term(c, rsched, sock):
-    return ("{| cc_sock := %d; cc_dir := %s; cc_where := %s; cc_body := [%s]; cc_abort := %s; cc_wsched := [%s]%%Z; "
+    ops = c["ops"]
+    finish = [("taskfile",), ("mapfiles",), ("symfiles",), ("dbgfiles",), ("info",)]
+    ndata = len([op for op in ops if op[0] in ("data", "kernel", "perf")])
+    if not c.get("abort") and [op for op in ops if op[0] not in ("data", "kernel", "perf", "sleep")] == finish:
+        files = "Some (%s)" % cdir({n: v for n, v in c["files"].items() if n != b"events.txt"})
+    else:
+        files = "None"
+    return ("{| cc_sock := %d; cc_dir := %s; cc_where := %s; cc_body := [%s]; cc_ndata := %d; cc_files := %s; "
+            "cc_abort := %s; cc_wsched := [%s]%%Z; "
             "cc_rsched := [%s]%%nat; cc_wire := %s; cc_local := %s; cc_recv := %s |}" % (
-                sock, cb(c["dir"]), cb(c["where"]), "; ".join(cmsg(m) for m in body_msgs(c)),
+                sock, cb(c["dir"]), cb(c["where"]), "; ".join(cmsg(m) for m in body_msgs(c)), ndata, files,
                 coq.coq_bool(bool(c.get("abort"))),
                 "; ".join(coq.zlit(v) for v in expand(c["wsched"], c["wcalls"])),
                 "; ".join(str(v) for v in rsched), cb(c["wire"]), cdir(c["local"] or {}), codir(c["recv"])))
@@ -372,6 +380,7 @@ def evaluate_small(ctx, cases, name):
         ("violations", "bad_indices ok_case cases 0"),
         ("send", "bad_indices (forallb agree_send) cases 0"),
         ("local", "bad_indices (forallb agree_local) cases 0"),
+        ("meta", "bad_indices (forallb agree_meta) cases 0"),
         ("recv", "bad_indices agree_recv cases 0"),
     ])
     if res is None:
@@ -649,10 +658,14 @@ class Relay:
             pass
 
 
-def norm_dir(uft, objdir, path, analysis=True, sort_replay=False):
-    """normalised view of a recorded directory: name -> bytes (pids, timestamps, addresses of ASLR'd
-    modules removed); .dat files are reduced to the sequence of second words (type/depth/addr)"""
+def norm_dir(uft, objdir, path, analysis=True, sort_replay=False, variant="plain"):
+    """normalised view of a recorded directory: EVERY file of the directory, name -> bytes, with only the
+    documented run-to-run differences removed (pids, timestamps, session ids, addresses of ASLR'd modules,
+    pointer-valued arguments); <tid>.dat files are reduced to the sequence of second words (type/depth/addr),
+    or - when records carry argument payloads - to their size plus the replay output"""
     out = {}
+    aopts, with_args = VARIANTS[variant][1], VARIANTS[variant][2]
+    perf_recs = []
     if not os.path.isdir(path):
         return None
     dats = []
@@ -661,11 +674,27 @@ def norm_dir(uft, objdir, path, analysis=True, sort_replay=False):
         if not os.path.isfile(p):
             continue
         b = open(p, "rb").read()
-        if n == "default.opts":
+        if n == "default.opts" or (variant == "logfile" and n == "rec.log"):
             continue
         if re.fullmatch(r"\d+\.dat", n):
-            words = b"".join(b[i + 8:i + 16] for i in range(0, len(b) - 15, 16))
+            words = b"" if with_args else b"".join(b[i + 8:i + 16] for i in range(0, len(b) - 15, 16))
             dats.append(struct.pack("<I", len(b)) + words)
+        elif re.fullmatch(r"perf-cpu\d+\.dat", n):
+            # local recording opens one file per cpu, the receiver creates a file when data arrives: empty files
+            # are no data.  Which cpu sees a task event and how often the tracee is switched out (PERF_RECORD_
+            # SWITCH = 14) differs from run to run: compared is the multiset of (type, size) of the other
+            # records (COMM, FORK, EXIT)
+            off = 0
+            while off + 8 <= len(b):
+                ty, misc, sz = struct.unpack_from("<IHH", b, off)
+                if sz < 8:
+                    perf_recs.append((-1, len(b) - off))
+                    break
+                if ty != 14:
+                    perf_recs.append((ty, sz))
+                off += sz
+            if off != len(b) and (not perf_recs or perf_recs[-1][0] != -1):
+                perf_recs.append((-2, len(b) - off))
         elif n.startswith("sid-") and n.endswith(".map"):
             paths = sorted(set(l.split()[-1] for l in b.decode(errors="replace").splitlines()
                                if l.strip() and "/" in l.split()[-1]))
@@ -676,18 +705,23 @@ def norm_dir(uft, objdir, path, analysis=True, sort_replay=False):
             t = re.sub(rb"sid=[0-9a-f]+", b"sid=S", t)
             out[b"task.txt"] = b"\n".join(sorted(t.splitlines()))
         elif n == "info":
-            keep = [l for l in b[40:].split(b"\n") if l.split(b":")[0] in
-                    (b"exename", b"build_id", b"exit_status", b"pattern", b"uftrace_version", b"nr_tid")]
+            keep = [l for l in b[40:].split(b"\n") if l.startswith((
+                b"exename:", b"build_id:", b"exit_status:", b"pattern_type:", b"uftrace_version:", b"taskinfo:lines",
+                b"taskinfo:nr_tid", b"argspec:", b"retspec:", b"argauto:", b"retauto:", b"enumauto:", b"auto-args:",
+                b"cpuinfo:", b"osinfo:"))]
             out[b"info"] = b[:40] + b"\n".join(keep)
         else:
             out[n.encode()] = b
     for i, w in enumerate(sorted(dats)):
         out[b"T%d.dat" % i] = w
+    if perf_recs or VARIANTS[variant][3]:
+        out[b"perf-cpu*.dat"] = repr(sorted(perf_recs)).encode()
     if analysis:
-        for cmd, args in (("replay", ["-f", "none"]), ("report", ["-f", "call"])):
+        for cmd, args in (("replay", ["-f", "none"] + aopts), ("report", ["-f", "call"] + aopts)):
             if cmd == "replay" and sort_replay:
                 continue     # several threads: leaf folding in replay depends on the timing of the run
             rc, o, e = sh(["timeout", "30", uft, cmd, "--no-pager", "-d", path] + args, timeout=40)
+            o = re.sub(r"0x[0-9a-f]{6,}", "PTR", o)       # pointer-valued arguments (stack addresses)
             if cmd == "report":      # ordered by total time
                 o = "\n".join(sorted(o.splitlines()))
             out[cmd.encode() + b".out"] = ("rc=%d\n" % rc).encode() + o.encode() + \
@@ -699,9 +733,28 @@ def digest_dir(d):
     return None if d is None else {n: (len(v), hashlib.sha1(v).digest()[:8]) for n, v in d.items()}
 
 
-def record_cmd(uft, objdir, extra, d, prog):
-    return ["timeout", "-s", "KILL", "40", uft, "record", "--no-pager", "--no-event", "--libmcount-path=" + objdir] + \
-        extra + ["-d", d] + prog
+# option variants of `uftrace record`: together they produce every kind of file a data directory can hold in this
+# sandbox (<tid>.dat with and without argument payloads, task.txt, sid-*.map, *.sym, *.dbg, info with the
+# matching feature bits / argspec lines, perf-cpuN.dat); kernel tracing (-k: kernel_header, kallsyms,
+# kernel-cpuN.dat) and SDT events (events.txt) are not available offline - they are covered in-process only.
+#   name -> (record options, options of replay/report, "args" = .dat records carry payloads, perf events on)
+VARIANTS = {
+    "plain": ([], [], False, False),
+    "srcline": (["--srcline"], ["--srcline"], False, False),
+    "auto-args": (["-a"], [], True, False),
+    "args": (["-A", "foo@arg1", "-R", "bar@retval", "-A", "leaf@arg1"], [], True, False),
+    "trigger-args": (["-T", "foo@arg1,retval", "-T", "leaf@retval"], [], True, False),
+    "with-syms": (["--with-syms", "@SYMDIR@"], ["--srcline"], False, False),
+    "perf-events": ([], ["--no-event"], False, True),
+    # the log file is kept outside the data directory locally and stored in it by the receiver: `rec.log` is left
+    # out of the comparison, but `uftrace recv` must survive it (the path contains slashes)
+    "logfile": (["-v", "--logfile", "@CWD@/rec.log"], [], False, False),
+}
+
+
+def record_cmd(uft, objdir, extra, d, prog, events=False):
+    return ["timeout", "-s", "KILL", "40", uft, "record", "--no-pager"] + ([] if events else ["--no-event"]) + \
+        ["--libmcount-path=" + objdir] + extra + ["-d", d] + prog
 
 
 def start_recv(uft, srvroot):
@@ -743,8 +796,8 @@ def build_progs(ctx):
     os.makedirs(root, exist_ok=True)
     open(os.path.join(root, "ps.c"), "w").write("#include <stdlib.h>\n" + PROG_SINGLE)
     open(os.path.join(root, "pm.c"), "w").write(PROG_MT)
-    sh(["gcc", "-pg", "-no-pie", "-O0", "-o", os.path.join(root, "ps"), os.path.join(root, "ps.c")], check=True)
-    sh(["gcc", "-pg", "-no-pie", "-O1", "-o", os.path.join(root, "pm"), os.path.join(root, "pm.c"), "-lpthread"], check=True)
+    sh(["gcc", "-pg", "-g", "-no-pie", "-O0", "-o", os.path.join(root, "ps"), os.path.join(root, "ps.c")], check=True)
+    sh(["gcc", "-pg", "-g", "-no-pie", "-O1", "-o", os.path.join(root, "pm"), os.path.join(root, "pm.c"), "-lpthread"], check=True)
     return os.path.join(root, "ps"), os.path.join(root, "pm")
 
 
@@ -754,23 +807,29 @@ def e2e_round(ctx, objdir, progs, rnd, spec):
     uft = os.path.join(objdir, "uftrace")
     root = os.path.join(ctx.scratch, "e2e%d" % rnd)
     os.makedirs(root)
-    runs = [(extra, [progs[kind]] + [str(a) for a in args], kind) for kind, extra, args in spec["runs"]]
+    runs = []
+    for r in spec["runs"]:
+        kind, extra, args = r[0], r[1], r[2]
+        variant = r[3] if len(r) > 3 else "plain"
+        vopts = [progs["symdir"] if x == "@SYMDIR@" else x.replace("@CWD@", os.path.join(root, "cwd%d" % len(runs)))
+                 for x in VARIANTS[variant][0]]
+        runs.append((extra + vopts, [progs[kind]] + [str(a) for a in args], kind, variant))
     k = len(runs)
     srv, port = start_recv(uft, os.path.join(root, "srv"))
     relay = Relay(spec["relay_seed"], port)
     procs, out = [], []
     try:
-        for i, (extra, prog, kind) in enumerate(runs):
+        for i, (extra, prog, kind, variant) in enumerate(runs):
             cwd = os.path.join(root, "cwd%d" % i)
             os.makedirs(cwd)
-            rc, o, e = sh(record_cmd(uft, objdir, extra, "local.data", prog), cwd=cwd, timeout=60)
+            rc, o, e = sh(record_cmd(uft, objdir, extra, "local.data", prog, VARIANTS[variant][3]), cwd=cwd, timeout=60)
             if rc != 0:
                 ctx.broken("e2e: local uftrace record failed rc=%d: %s" % (rc, (o + e)[-300:]))
-        for i, (extra, prog, kind) in enumerate(runs):
+        for i, (extra, prog, kind, variant) in enumerate(runs):
             cwd = os.path.join(root, "cwd%d" % i)
             procs.append(subprocess.Popen(
                 record_cmd(uft, objdir, extra + ["--host", "127.0.0.1", "--port", str(relay.port)],
-                           "net%d.data" % i, prog), cwd=cwd, stdout=subprocess.PIPE, stderr=subprocess.STDOUT))
+                           "net%d.data" % i, prog, VARIANTS[variant][3]), cwd=cwd, stdout=subprocess.PIPE, stderr=subprocess.STDOUT))
             time.sleep(spec.get("stagger", 0.0))
         rcs = []
         for p in procs:
@@ -781,19 +840,28 @@ def e2e_round(ctx, objdir, progs, rnd, spec):
                 o, _ = p.communicate()
             rcs.append((p.returncode, o.decode(errors="replace")[-300:]))
         time.sleep(0.3)
+        recv_died = srv.poll() is not None
     finally:
         relay.close()
         srvout = stop_proc(srv)
-    for i, (extra, prog, kind) in enumerate(runs):
-        loc = norm_dir(uft, objdir, os.path.join(root, "cwd%d" % i, "local.data"), sort_replay=(kind == "mt"))
-        net = norm_dir(uft, objdir, os.path.join(root, "srv", "net%d.data" % i), sort_replay=(kind == "mt"))
-        meta = {"round": rnd, "clients": k, "client": i, "kind": kind, "prog": prog[1:], "record_rc": rcs[i][0],
+    if recv_died:
+        ctx.violation("C16 violated end-to-end: `uftrace recv` exited while serving well-behaved `record --host` clients "
+                      "(%s): %s" % (", ".join(r[3] for r in runs), srvout[-200:]),
+                      {"mode": "e2e", "case": {"spec": spec, "recv_output": srvout[-400:], "variant": [r[3] for r in runs]}}, True)
+    for i, (extra, prog, kind, variant) in enumerate(runs):
+        loc = norm_dir(uft, objdir, os.path.join(root, "cwd%d" % i, "local.data"), sort_replay=(kind == "mt"), variant=variant)
+        net = norm_dir(uft, objdir, os.path.join(root, "srv", "net%d.data" % i), sort_replay=(kind == "mt"), variant=variant)
+        meta = {"round": rnd, "clients": k, "client": i, "kind": kind, "variant": variant, "prog": prog[1:], "record_rc": rcs[i][0],
                 "record_out": rcs[i][1], "recv_output": srvout[-300:], "spec": spec,
                 "local_files": sorted(x.decode() for x in (loc or {})),
                 "net_files": sorted(x.decode() for x in (net or {})) if net is not None else None,
                 "relay_chunk_sizes": dict(sorted(relay.chunks.items()))}
         out.append((digest_dir(loc) or {}, digest_dir(net), meta))
-        tags = ["e2e:clients=%d" % k, "e2e:" + kind] + ["e2e:chunk=%d" % c for c in relay.chunks if c in (1, 7, 8, 9, 65536)]
+        tags = ["e2e:clients=%d" % k, "e2e:" + kind, "e2e:variant=" + variant] + \
+            ["e2e:chunk=%d" % c for c in relay.chunks if c in (1, 7, 8, 9, 65536)] + \
+            ["e2e:file-kind=" + x for x in sorted(set(
+                "dbg" if n.endswith(b".dbg") else "sym" if n.endswith(b".sym") else "perf" if n.startswith(b"perf-") else
+                "dat" if n.endswith(b".dat") else n.decode() for n in (loc or {}) if not n.endswith(b".out")))]
         ctx.case(key=("e2e", json.dumps(spec, sort_keys=True), i), tags=tags,
                  sample=meta if rnd == 0 and i == 0 else None,
                  size=sum(v[0] for v in (digest_dir(net) or {}).values()))
@@ -884,19 +952,39 @@ def e2e_verdict(ctx, results):
                       {"mode": "e2e", "case": meta, "differing": diff}, True)
 
 
-def e2e(ctx, objdir):
+def e2e_progs(ctx, objdir):
+    """the traced programs and a symbol directory for --with-syms (the .sym/.dbg files of a --srcline recording)"""
     ps, pm = build_progs(ctx)
-    progs = {"single": ps, "mt": pm}
+    symdir = os.path.join(ctx.scratch, "prog", "symdir")
+    if not os.path.isdir(symdir):
+        uft = os.path.join(objdir, "uftrace")
+        tmp = os.path.join(ctx.scratch, "prog", "sym.data")
+        rc, o, e = sh(record_cmd(uft, objdir, ["--srcline"], tmp, [ps, "1"]), timeout=60)
+        os.makedirs(symdir)
+        for n in os.listdir(tmp) if rc == 0 else []:
+            if n.endswith((".sym", ".dbg")):
+                shutil.copy(os.path.join(tmp, n), os.path.join(symdir, n))
+    return {"single": ps, "mt": pm, "symdir": symdir}
+
+
+def e2e(ctx, objdir):
+    progs = e2e_progs(ctx, objdir)
     results = []
+    todo = []          # every option variant at least once per run, in a seed-dependent order
     for rnd in range(ctx.n(3, 16)):
-        k = [1, 3, 2, 4, 4, 2, 3, 1][rnd % 8]
+        k = [2, 3, 4, 1, 4, 2, 3, 1][rnd % 8]
         runs = []
         for i in range(k):
-            if ctx.rng.random() < 0.35:
-                # many tasks, many buffers; ONE writer thread (the multi-writer case is the known defect)
-                runs.append(["mt", ["--num-thread=1"], [ctx.rng.choice([2, 4]), ctx.rng.choice([3000, 9000])]])
+            if not todo:
+                todo = sorted(VARIANTS)
+                ctx.rng.shuffle(todo)
+            variant = todo.pop()
+            if variant in ("plain", "args", "trigger-args") and ctx.rng.random() < 0.4:
+                # many tasks, many buffers, several writer threads on the one socket
+                runs.append(["mt", ctx.rng.choice([[], ["--num-thread=1"], ["--num-thread=4"]]),
+                             [ctx.rng.choice([2, 4]), ctx.rng.choice([3000, 9000])], variant])
             else:
-                runs.append(["single", [], [ctx.rng.choice([0, 1, 3, 50, 3000])]])
+                runs.append(["single", [], [ctx.rng.choice([0, 1, 3, 50, 3000])], variant])
         spec = {"relay_seed": ctx.rng.randrange(1 << 30), "runs": runs, "stagger": ctx.rng.choice([0.0, 0.0, 0.02])}
         results += e2e_round(ctx, objdir, progs, rnd, spec)
     e2e_verdict(ctx, results)
@@ -995,7 +1083,8 @@ def common_meta(ctx):
                 "distinct by (ops, files, schedules); non-trivial = at least one data buffer or metadata file is "
                 "sent.  big cases: payloads of 64 KiB .. 1 MiB (digests).  raw cases: fixed table of malformed "
                 "streams x random read schedules.  e2e: uftrace recv + 1-4 concurrent `record --host` through a "
-                "re-segmenting TCP relay vs local recordings; every 10th in-process case and one e2e scenario: a client whose "
+                "re-segmenting TCP relay vs local recordings, over the option variants plain / --srcline / -a / -A -R / -T arg specs "
+                "/ --with-syms / perf events / --logfile (each at least once per run), comparing the complete file sets; every 10th in-process case and one e2e scenario: a client whose "
                 "connection is reset after its directory name / some data, followed by a client on the re-used descriptor")
     ctx.trusted = [
         "Coq 8.16.1 kernel incl. vm_compute; no axioms (Print Assumptions: closed under the global context)",
@@ -1035,7 +1124,7 @@ def verdict_small(ctx, cases, res, what):
                       {"mode": "inproc", "case": jcase(cases[i]), "observed": observed(cases[i])}, True)
     if res["mismatch"] and not res["violations"]:
         i = res["mismatch"][0]
-        which = [k for k in ("send", "local", "recv") if i in res[k]]
+        which = [k for k in ("send", "local", "meta", "recv") if i in res[k]]
         ctx.violation("model and implementation disagree on %d %s case(s) (first: %s side); the property checker accepts "
                       "the implementation's output on every explored case" % (len(res["mismatch"]), what, "/".join(which)),
                       {"mode": "inproc", "correspondence": "C16.Model " + "/".join(which) + " vs cmds/recv.c, utils/utils.c, "
@@ -1139,8 +1228,7 @@ def replay(ctx, obj):
             ctx.violation("model and implementation of the receiver disagree on a malformed stream (%s)" % r["tag"],
                           {"mode": "raw", "raw": obj["raw"]}, False)
     elif mode == "e2e":
-        ps, pm = build_progs(ctx)
-        res = e2e_round(ctx, objdir, {"single": ps, "mt": pm}, 0, obj["case"]["spec"])
+        res = e2e_round(ctx, objdir, e2e_progs(ctx, objdir), 0, obj["case"]["spec"])
         e2e_verdict(ctx, res)
         ctx.log("replayed e2e round:", json.dumps([m for _, _, m in res])[:1500])
     elif mode == "e2e-reset":
